@@ -2,9 +2,9 @@
 Require Import SF.Prelude SF.PySlice SF.Dtype SF.PyDyn Gen.Gen_util Proofs.SliceFacts Proofs.AscSlice.
 
 (* The regenerated util.slice_to_ascending_slice (used by drop/mask/assign to walk blocks in
-   ascending order) denotes exactly the key's positions, ascending -- for keys whose
-   start/stop are None or non-negative. *)
-Theorem C08_asc_slice_correct : forall k n ps, 0 <= n -> asc_dom k = true ->
+   ascending order) denotes exactly the key's positions, ascending -- for EVERY key
+   (any start/stop/step, negative or out of range) and every axis length. *)
+Theorem C08_asc_slice_correct : forall k n ps, 0 <= n ->
   positions k n = Some ps ->
   exists k', slice_to_ascending_slice (of_slice k) (PInt n) = of_slice k' /\
              positions k' n = Some (if step_negative k then rev ps else ps) /\
